@@ -143,6 +143,13 @@ class Dtype:
     def __hash__(self) -> int:
         return hash((self._name, self._length))
 
+    def __copy__(self) -> Dtype:
+        # Dtype instances are immutable
+        return self
+
+    def __deepcopy__(self, memo) -> Dtype:
+        return self
+
     @classmethod
     @functools.lru_cache(CACHE_SIZE, typed=True)
     def _create(cls, definition: DtypeDefinition, length: Optional[int], scale: Union[None, float, int]) -> Dtype:
